@@ -1,5 +1,6 @@
 import PyPhysim.Proofs.C02Gen
 import PyPhysim.Proofs.C02Complex
+import PyPhysim.Proofs.C02Pair
 
 /-!
 # C02 — OFDM round trip, cyclic prefix, guard bands, one-tap equalisation
@@ -293,6 +294,83 @@ theorem one_tap_exact_complex (p : Params) (hp : p.Valid) (delays : List ℕ) (g
   one_tap_exact' p hp (npOmega p.fft)
     (npOmega_primitive p.fft (by have := hp.2.2.2; have := hp.2.1; omega)) _
     (sqrt_scale_ne_zero p hp) delays gains M hM hd hnd hMC hMN hH x
+
+/-! ## one OFDM object, one long-lived equaliser, any history -/
+
+section pair
+variable {α : Type} [Zero α] [Add α] [Mul α] [Div α] [NatCast α]
+
+/-- **Configuration after a history**: whatever operations (`set_parameters` accepted or rejected,
+    `modulate`, `demodulate`, `equalize_data`) were interleaved on the pair, the shared OFDM object holds
+    the result of its `set_parameters` calls alone (the last accepted triple), and it is valid. -/
+theorem pair_history_config (F Finv : ℕ → List α → List α) (sc : Params → α) (s : Pair)
+    (hs : s.ofdm.Valid) (ops : List (PairOp α)) :
+    (runPair F Finv sc s ops).1.ofdm = run s.ofdm (setOps ops) ∧
+      (runPair F Finv sc s ops).1.ofdm.Valid :=
+  ⟨runPair_ofdm F Finv sc s ops, runPair_valid F Finv sc s hs ops⟩
+
+/-- **No stale derived state**: after ANY history, every operation on the long-lived pair — in
+    particular `equalize_data` on the long-lived equaliser — returns exactly what the same operation
+    returns on a freshly built `(OFDM, OfdmOneTapEqualizer)` pair with the current configuration: the
+    equaliser holds a reference to the OFDM object and no copy of anything derived from it.
+    (That the code has this shape is what the history correspondence of the harness checks.) -/
+theorem pair_equals_fresh (F Finv : ℕ → List α → List α) (sc : Params → α) (s : Pair)
+    (ops : List (PairOp α)) (op : PairOp α) :
+    (stepPair F Finv sc (runPair F Finv sc s ops).1 op).2
+      = (stepPair F Finv sc (freshPair (runPair F Finv sc s ops).1.ofdm) op).2 := rfl
+
+/-- only an accepted `set_parameters` changes the pair. -/
+theorem pair_step_state (F Finv : ℕ → List α → List α) (sc : Params → α) (s : Pair) (op : PairOp α) :
+    (stepPair F Finv sc s op).1 = s ∨
+      ∃ f c u p, op = .setParams f c u ∧ setParameters f c u = .ok p ∧
+        (stepPair F Finv sc s op).1 = ⟨p⟩ := stepPair_state F Finv sc s op
+
+end pair
+
+/-- **Round trip after any history** of reconfigurations and uses of the one OFDM object. -/
+theorem pair_roundtrip_after_history {K : Type} [Field K] (F Finv : ℕ → List K → List K)
+    (sc : Params → K) (s : Pair) (hs : s.ofdm.Valid) (ops : List (PairOp K))
+    (hK : KernelPair (runPair F Finv sc s ops).1.ofdm.fft F Finv)
+    (hsc : sc (runPair F Finv sc s ops).1.ofdm ≠ 0) (x : List K) :
+    ∃ tx, (stepPair F Finv sc (runPair F Finv sc s ops).1 (.modulate x)).2 = .ok tx ∧
+      (stepPair F Finv sc (runPair F Finv sc s ops).1 (.demodulate tx)).2
+        = .ok (x ++ List.replicate (zeropad (runPair F Finv sc s ops).1.ofdm x.length) 0) :=
+  pair_roundtrip F Finv sc s hs ops hK hsc x
+
+/-- **One-tap equalisation after any history**: reconfigure the OFDM object any number of times
+    (growing / shrinking fft, changing cp and used, rejected calls in between, earlier transmissions),
+    then modulate, pass a time-invariant channel with memory `≤ cp`, `< fft` of the CURRENT
+    configuration `p`, demodulate and equalise with the equaliser built before the history: the input
+    comes back followed only by the zero padding. `Ω n` is the twiddle used at transform size `n`. -/
+theorem pair_one_tap_after_history {K : Type} [Field K] [CharZero K] (Ω : ℕ → K) (sc : Params → K)
+    (s : Pair) (hs : s.ofdm.Valid) (ops : List (PairOp K)) (p : Params)
+    (hp : p = (runPair (fun n a => dft (fun m => Ω n ^ m) n a)
+      (fun n a => idft (fun m => (Ω n)⁻¹ ^ m) n a) sc s ops).1.ofdm)
+    (hΩ : IsPrimitiveRoot (Ω p.fft) p.fft) (hsc : sc p ≠ 0)
+    (delays : List ℕ) (gains : List K) (M : ℕ) (hM : delays.getLast? = some M)
+    (hd : ∀ d ∈ delays, d ≤ M) (hnd : delays.Nodup) (hMC : M ≤ p.cp) (hMN : M < p.fft)
+    (hH : ∀ k ∈ usedIdx p.fft p.used, Hs (Ω p.fft) delays gains k ≠ 0) (x : List K) :
+    ∃ tx z d,
+      (stepPair (fun n a => dft (fun m => Ω n ^ m) n a) (fun n a => idft (fun m => (Ω n)⁻¹ ^ m) n a) sc
+          (runPair (fun n a => dft (fun m => Ω n ^ m) n a)
+            (fun n a => idft (fun m => (Ω n)⁻¹ ^ m) n a) sc s ops).1 (.modulate x)).2 = .ok tx ∧
+      corrupt (staticIR delays gains tx.length) tx = .ok z ∧
+      (stepPair (fun n a => dft (fun m => Ω n ^ m) n a) (fun n a => idft (fun m => (Ω n)⁻¹ ^ m) n a) sc
+          (runPair (fun n a => dft (fun m => Ω n ^ m) n a)
+            (fun n a => idft (fun m => (Ω n)⁻¹ ^ m) n a) sc s ops).1
+          (.demodulate (z.take tx.length))).2 = .ok d ∧
+      (stepPair (fun n a => dft (fun m => Ω n ^ m) n a) (fun n a => idft (fun m => (Ω n)⁻¹ ^ m) n a) sc
+          (runPair (fun n a => dft (fun m => Ω n ^ m) n a)
+            (fun n a => idft (fun m => (Ω n)⁻¹ ^ m) n a) sc s ops).1
+          (.equalize d (staticIR delays gains tx.length))).2
+        = .ok (x ++ List.replicate (zeropad p x.length) 0) :=
+  pair_one_tap Ω sc s hs ops p hp hΩ hsc delays gains M hM hd hnd hMC hMN hH x
+
+/-- non-vacuity: a history over ℚ that grows the FFT size (`(2,1,2) → (4,·,·)` rejected, then `(2,2,2)`)
+    and the resulting configuration -/
+example : (runPair (α := ℚ) (fun _ a => a) (fun _ a => a) (fun _ => 1) (freshPair ⟨2, 1, 2⟩)
+    [.modulate [1, 2], .setParams 4 5 none, .setParams 2 2 (some 2)]).1.ofdm = ⟨2, 2, 2⟩ := by
+  decide +kernel
 
 /-- the witness configuration `OFDM(2, 2, 2)`, taps at delays `0` and `2` (memory = cp = fft) -/
 def witnessParams : Params := ⟨2, 2, 2⟩
